@@ -272,6 +272,7 @@ func HarnessC07_MemberlistCAS() {
 	}
 	interfere := vfChoice("interfere", 2) == 1
 	mode := vfChoice("f", 3) // 0 add own entry, 1 decline, 2 fail
+	retryFlag := vfChoice("retry_flag", 2) == 1
 	bDone := false
 	sawB := false
 	fA := func(in interface{}) (interface{}, bool, error) {
@@ -300,7 +301,8 @@ func HarnessC07_MemberlistCAS() {
 			return nil, false, vfErrDecode
 		}
 		cur.m["a"] = vfEntry{ts: 60}
-		return cur, true, nil
+		// whether the caller is willing to be retried must not weaken the check
+		return cur, retryFlag, nil
 	}
 	n0, v0 := vfStoreSnapshot(m)
 	if interfere {
